@@ -6,6 +6,7 @@ import (
 	"bytes"
 	"crypto/sha256"
 	"fmt"
+	"io"
 	"os"
 	"os/exec"
 	"path/filepath"
@@ -71,6 +72,38 @@ func runCLI(bin string, specFile string, outDir string, extra []string) cliObs {
 	var out bytes.Buffer
 	cmd.Stdout, cmd.Stderr = &out, &out
 	err := cmd.Run()
+	o := cliObs{Out: normaliseOutput(out.String(), outDir), Files: snapshotFiles(outDir)}
+	if ee, ok := err.(*exec.ExitError); ok {
+		o.Exit = ee.ExitCode()
+	} else if err != nil {
+		o.Exit = -1
+	}
+	return o
+}
+
+// runCLIPiped: the specification reaches the tool through a pipe on /dev/stdin, written in the given pieces with a
+// pause between them (a writer that is descheduled half-way, a producer that flushes twice).
+func runCLIPiped(bin string, pieces []string, outDir string, extra []string) cliObs {
+	args := append([]string{"-out", outDir}, extra...)
+	args = append(args, "/dev/stdin")
+	cmd := exec.Command(bin, args...)
+	var out bytes.Buffer
+	cmd.Stdout, cmd.Stderr = &out, &out
+	w, err := cmd.StdinPipe()
+	if err != nil {
+		return cliObs{Exit: -1}
+	}
+	if err := cmd.Start(); err != nil {
+		return cliObs{Exit: -1}
+	}
+	for i, p := range pieces {
+		if i > 0 {
+			time.Sleep(150 * time.Millisecond)
+		}
+		_, _ = io.WriteString(w, p)
+	}
+	_ = w.Close()
+	err = cmd.Wait()
 	o := cliObs{Out: normaliseOutput(out.String(), outDir), Files: snapshotFiles(outDir)}
 	if ee, ok := err.(*exec.ExitError); ok {
 		o.Exit = ee.ExitCode()
@@ -193,6 +226,44 @@ func c15Cases(c *ctx) []c15Case {
 
 func runC15(c *ctx) {
 	bin := filepath.Join(verifDir, "bin", "emerge")
+	// the same specification through a pipe, written at once / in two pieces / in five pieces with pauses
+	if c.shard == 4%c.of {
+		if root, err := os.MkdirTemp("", "verif-c15p-"); err == nil {
+			defer os.RemoveAll(root)
+			for si, text := range []string{
+				"grammar piped;\nID = /[a-z]+/\nNUM = /[0-9]+/\n@left \"+\"\nstart = e;\ne = e \"+\" e | ID | NUM | \"(\" e \")\";\n// " + strings.Repeat("tail ", 40) + "\nextra = \"x\" e;\n",
+				"grammar pipedbad;\nstart = a b c;\n" + strings.Repeat("// filler filler filler\n", 300) + "a = \"a\";\nb = ( ;\n",
+			} {
+				var first cliObs
+				for vi, cuts := range [][]int{{}, {len(text) / 2}, {10, len(text) / 3, len(text) / 2, len(text) - 5}, {4096}, {len(text) - 1}} {
+					var pieces []string
+					prev := 0
+					for _, cut := range cuts {
+						if cut > prev && cut < len(text) {
+							pieces = append(pieces, text[prev:cut])
+							prev = cut
+						}
+					}
+					pieces = append(pieces, text[prev:])
+					outDir := filepath.Join(root, fmt.Sprintf("p%d_%d", si, vi))
+					_ = os.MkdirAll(outDir, 0o755)
+					o := runCLIPiped(bin, pieces, outDir, nil)
+					c.eval()
+					c.count("cli_processes_reading_from_a_pipe", 1)
+					c.nontrivial(fmt.Sprintf("piped/%d/%d", si, vi))
+					if vi == 0 {
+						first = o
+						continue
+					}
+					if d := diffObs(first, o); d != "" {
+						c.violate(violation{Case: fmt.Sprintf("piped%d/%d-pieces", si, len(pieces)), Input: map[string]any{"spec": firstLines(text, 6), "written_in_pieces_of": cuts},
+							Observed: "written in pieces: " + d, Expected: "the same files, diagnostics and exit status as when the specification is written at once"})
+						break
+					}
+				}
+			}
+		}
+	}
 	K := c.n(6, 20)
 	root, err := os.MkdirTemp("", "verif-c15-")
 	if err != nil {
